@@ -6,6 +6,7 @@ import (
 	"fmt"
 	"runtime"
 	"runtime/debug"
+	"slices"
 	"sort"
 	"strings"
 	"sync"
@@ -387,15 +388,36 @@ func (w *world) tap(l *ctree.Leaf) {
 	case len(c.Delete) > 0:
 		for _, d := range c.Delete {
 			pat := keyOfDelete(c, d)
-			for k := range w.known {
-				if gn.Matches(pat, gn.Unkey(k)) {
-					delete(w.known, k)
-					w.lastTouch[k] = w.step
-					w.gen[k]++
+			// A delete that names a known leaf exactly concerns that leaf alone (a leaf has nothing below it):
+			// no scan, or a Reset of a large target costs leaves x leaves.
+			exact := ""
+			base := pat
+			if n := len(base); n > 0 && base[n-1] == "*" {
+				base = base[:n-1] // a trailing glob also matches the node itself
+			}
+			if !slices.Contains(base, "*") && w.known[gn.Key(base)] {
+				exact = gn.Key(base)
+				delete(w.known, exact)
+				w.lastTouch[exact] = w.step
+				w.gen[exact]++
+			} else {
+				for k := range w.known {
+					if gn.Matches(pat, gn.Unkey(k)) {
+						delete(w.known, k)
+						w.lastTouch[k] = w.step
+						w.gen[k]++
+					}
 				}
 			}
 			for _, s := range w.subs {
 				if s.started && s.syncStep < 0 {
+					if _, in := s.snapshot[exact]; exact != "" && (in || len(s.snapshot) == 0) {
+						// the snapshot is the tree at one instant: the leaf it holds here has nothing below it either
+						if in {
+							s.excused[exact] = true
+						}
+						continue
+					}
 					for k := range s.snapshot {
 						if gn.Matches(pat, gn.Unkey(k)) {
 							s.excused[k] = true
@@ -1737,7 +1759,7 @@ func (w *world) checkEnded() {
 
 // replayView rebuilds the subscriber's view from its responses.
 func replayView(out []sent) (view map[string]string, syncs int, syncAt int) {
-	view = map[string]string{}
+	var tr gn.Trie
 	syncAt = -1
 	for i, o := range out {
 		if o.r.GetSyncResponse() {
@@ -1752,28 +1774,19 @@ func replayView(out []sent) (view map[string]string, syncs int, syncAt int) {
 			continue
 		}
 		for _, d := range n.Delete {
-			pat := keyOfDelete(n, d)
-			for k := range view {
-				if gn.Matches(pat, gn.Unkey(k)) {
-					delete(view, k)
-				}
-			}
+			tr.DeleteMatching(keyOfDelete(n, d))
 		}
 		if n.Atomic && len(n.Update) > 0 {
-			k := gn.Key(gn.RefIndex(n.Prefix, true))
-			for o := range view {
-				if gn.IsProperPrefix(gn.Unkey(k), gn.Unkey(o)) {
-					delete(view, o)
-				}
-			}
-			view[k] = valRepr(n)
+			k := gn.RefIndex(n.Prefix, true)
+			tr.DeleteBelow(gn.Unkey(gn.Key(k)))
+			tr.Set(k, valRepr(n))
 			continue
 		}
 		for _, u := range n.Update {
-			view[gn.Key(keyOfUpdate(n, u))] = valRepr(&pb.Notification{Update: []*pb.Update{u}})
+			tr.Set(keyOfUpdate(n, u), valRepr(&pb.Notification{Update: []*pb.Update{u}}))
 		}
 	}
-	return view, syncs, syncAt
+	return tr.Map(), syncs, syncAt
 }
 
 func diffMaps(want, got map[string]string) string {
